@@ -5,6 +5,7 @@ import TabulaModel.Lemmas.XrefFind
 import TabulaModel.Lemmas.XrefChain
 import TabulaModel.Lemmas.XrefStreamSec
 import TabulaModel.Lemmas.XrefHeader
+import TabulaModel.Lemmas.XrefNest
 /-!
 # C04, byte level — the cross-reference sections are read back exactly as written
 
@@ -597,31 +598,49 @@ theorem lookup_missing_or_free_is_error (ext : Reader.Ext) (file : List Nat) (x 
     · simp [getObjectB, h]
     · simp [getObjectB, h, he]
 
-/-- an in-use entry leads to the object standing at its offset -/
+/-- an in-use entry leads to the object standing at its offset — at any nesting of lookups the
+limit allows: fewer than `maxNestedLoads` = 16 objects already being loaded, the object not among
+them (since 129dd3d; before, any nesting) -/
+theorem lookup_in_use_at (ext : Reader.Ext) (file : List Nat) (x : RawSection) (fuel : Nat) (loading : List Int)
+    (num : Nat) (e : RawEntry) (b : Body)
+    (h : getLastI x (num : Int) = some e) (he : e.kind = .inUse) (hobj : ObjectAt file e.f1 num b)
+    (hnot : (num : Int) ∉ loading) (hlim : loading.length < maxNestedLoads) :
+    getObjectB ext file x (fuel + 1) loading (num : Int) = some b.value := by
+  have hc : loading.contains (num : Int) = false := by simpa using hnot
+  have hl : ¬ (loading.length ≥ maxNestedLoads) := by omega
+  simp only [getObjectB, h, he, hc, hl]
+  simp [uncompressedAt_object file e.f1 num b _ hobj]
+
+/-- an in-use entry leads to the object standing at its offset (verbatim as before 129dd3d: a
+lookup made from outside starts with nothing being loaded) -/
 theorem lookup_in_use (ext : Reader.Ext) (file : List Nat) (x : RawSection) (fuel : Nat) (num : Nat)
     (e : RawEntry) (b : Body)
     (h : getLastI x (num : Int) = some e) (he : e.kind = .inUse) (hobj : ObjectAt file e.f1 num b) :
-    getObjectB ext file x (fuel + 1) [] (num : Int) = some b.value := by
-  simp only [getObjectB, h, he]
-  simp [uncompressedAt_object file e.f1 num b _ hobj]
+    getObjectB ext file x (fuel + 1) [] (num : Int) = some b.value :=
+  lookup_in_use_at ext file x fuel [] num e b h he hobj (by simp) (by simp [maxNestedLoads])
 
 /-- a compressed entry leads through the object stream it names: the stream object is read at
 its own entry's offset, decoded (`Reader.mkObjStm`: `/N`, `/First`, header pairs), the member
-is cut out by index and must carry the number asked for -/
-theorem lookup_compressed (ext : Reader.Ext) (file : List Nat) (x : RawSection) (fuel : Nat) (n : Int)
+is cut out by index and must carry the number asked for — at any nesting of lookups the limit
+allows (fewer than 16 objects being loaded, `n` not among them) -/
+theorem lookup_compressed_at (ext : Reader.Ext) (file : List Nat) (x : RawSection) (fuel : Nat)
+    (loading : List Int) (n : Int)
     (e se : RawEntry) (stm : Nat) (pre : Sep) (kvs : List SObj) (close s3 : Sep) (seol : StreamEol)
     (data w4 : List Nat) (s5 : Sep) (os : Reader.ObjStm) (o : Obj)
     (h : getLastI x n = some e) (he : e.kind = .compressed) (hstm : e.f1 = (stm : Int))
     (hs : getLastI x (stm : Int) = some se) (hse : se.kind ≠ .compressed)
     (hobj : ObjectAt file se.f1 stm (.stream pre kvs close s3 seol data w4 s5))
     (hdec : Reader.mkObjStm ext (valueKVs kvs) data = .ok os)
-    (hmem : osSpec (.ok os) e.f2 = some (n, o)) :
-    getObjectB ext file x (fuel + 1) [] n = some (.obj o) := by
+    (hmem : osSpec (.ok os) e.f2 = some (n, o))
+    (hnot : n ∉ loading) (hlim : loading.length < maxNestedLoads) :
+    getObjectB ext file x (fuel + 1) loading n = some (.obj o) := by
   have hk1 : ¬ (e.kind = .free) := by rw [he]; decide
   have hk2 : ¬ (e.kind = .inUse) := by rw [he]; decide
   have hk3 : ¬ (se.kind = .compressed) := hse
-  simp only [getObjectB, h, hk1, hk2, if_false, hstm, hs, hk3]
-  simp only [List.contains_nil, Bool.false_eq_true, if_false]
+  have hc : loading.contains n = false := by simpa using hnot
+  have hl : ¬ (loading.length ≥ maxNestedLoads) := by omega
+  simp only [getObjectB, h, hk1, hk2, if_false, hstm, hs, hk3, hc, hl]
+  simp only [Bool.false_eq_true, if_false]
   rw [uncompressedAt_object file se.f1 stm _ _ hobj]
   simp only [Body.value, hdec]
   unfold osSpec at hmem
@@ -643,6 +662,20 @@ theorem lookup_compressed (ext : Reader.Ext) (file : List Nat) (x : RawSection) 
         simp only [Option.some.injEq, Prod.mk.injEq] at hmem
         obtain ⟨rfl, rfl⟩ := hmem
         simp
+
+/-- a compressed entry leads through the object stream it names (verbatim as before 129dd3d:
+a lookup made from outside) -/
+theorem lookup_compressed (ext : Reader.Ext) (file : List Nat) (x : RawSection) (fuel : Nat) (n : Int)
+    (e se : RawEntry) (stm : Nat) (pre : Sep) (kvs : List SObj) (close s3 : Sep) (seol : StreamEol)
+    (data w4 : List Nat) (s5 : Sep) (os : Reader.ObjStm) (o : Obj)
+    (h : getLastI x n = some e) (he : e.kind = .compressed) (hstm : e.f1 = (stm : Int))
+    (hs : getLastI x (stm : Int) = some se) (hse : se.kind ≠ .compressed)
+    (hobj : ObjectAt file se.f1 stm (.stream pre kvs close s3 seol data w4 s5))
+    (hdec : Reader.mkObjStm ext (valueKVs kvs) data = .ok os)
+    (hmem : osSpec (.ok os) e.f2 = some (n, o)) :
+    getObjectB ext file x (fuel + 1) [] n = some (.obj o) :=
+  lookup_compressed_at ext file x fuel [] n e se stm pre kvs close s3 seol data w4 s5 os o h he hstm hs hse hobj
+    hdec hmem (by simp) (by simp [maxNestedLoads])
 
 /-- **objstm_member_roundtrip**: an object stream whose dictionary says `/Type /ObjStm`, `/N` =
 number of members, `/First` = length of the header, and whose data decodes (through whatever
@@ -700,7 +733,7 @@ theorem lookup_newest_revision (ext : Reader.Ext) (file : List Nat) (start : Int
   obtain ⟨x, hx, hl⟩ := history_reconstructed ext file start revs hfind hc hnd (num : Int)
   unfold lookup openFile
   simp only [hhdr, if_true, hx]
-  rw [lookup_in_use ext file x (x.length + 1) num e b (by rw [hl]; exact hnew) he hobj]
+  rw [lookup_in_use ext file x maxNestedLoads num e b (by rw [hl]; exact hnew) he hobj]
 
 /-- **lookup_newest_revision_compressed** (end to end on the bytes, for objects stored inside
 object streams): the file and its revisions as in `lookup_newest_revision`; if the newest
@@ -742,7 +775,7 @@ theorem lookup_newest_revision_compressed (ext : Reader.Ext) (file : List Nat) (
     rw [hmk] at hmem
     unfold lookup openFile
     simp only [hhdr, if_true, hx]
-    rw [lookup_compressed ext file x (x.length + 1) (m.1 : Int) e se stm pre kvs close s3 seol raw w4 s5 os
+    rw [lookup_compressed ext file x maxNestedLoads (m.1 : Int) e se stm pre kvs close s3 seol raw w4 s5 os
       m.2.value (by rw [hl]; exact hnew) he hstm (by rw [hl']; exact hsnew) hse hobj hmk (by rw [hidx]; exact hmem)]
 
 /-- **lookup_deleted_or_unknown_is_error** (end to end on the bytes): if the newest revision
